@@ -303,6 +303,15 @@ const TEMPLATES: &[Template] = &[
     t("array-literal-index", "return ([{0}, {1}][{2}], *log)", &["int", "int", "idx"]),
     t("repeat", "return ([t(1, {0}); {1}], *log)", &["int", "len"]),
     t("slice", "return ([{0}, {1}, 3][{2}:], *log)", &["int", "int", "idx"]),
+    // chains: constants that follow a run-time operand must not be combined with each other first
+    t("chain-same-op", "return ({0} OP {1} OP {2}, *log)", &["int", "int", "int"]),
+    t("chain-float-add", "return ({0} + {1} + {2}, *log)", &["float", "float", "float"]),
+    t("chain-float-sub", "return ({0} - {1} - {2}, *log)", &["float", "float", "float"]),
+    t("chain-float-mul", "return ({0} * {1} * {2}, *log)", &["float", "float", "float"]),
+    t("chain-float-div", "return ({0} / {1} / {2}, *log)", &["float", "float", "float"]),
+    t("chain-float-mixed", "return ({0} + {1} - {2}, {0} * {1} / {2}, {0} - {1} + {2}, *log)", &["float", "float", "float"]),
+    t("chain-string-add", "return ({0} + {1} + {2}, *log)", &["str", "str", "str"]),
+    t("chain-array-add", "return ([{0}] + [{1}] + [{2}], *log)", &["int", "float", "int"]),
     t("slice-start-step", "return ([{0}, {1}, 3][{2}::{3}], *log)", &["int", "int", "idx", "step"]),
     t("slice-stop-step", "return ([{0}, 2, 3][:{1}:{2}], *log)", &["int", "idx", "step"]),
     t("slice-all-bounds", "return ([{0}, 2, 3, 4][{1}:{2}:{3}], *log)", &["int", "idx", "idx", "step"]),
@@ -362,6 +371,11 @@ fn hole_values(kind: &str, thorough: bool) -> Vec<(String, Variable, &'static st
             v.into_iter().map(|i| (int_lit(i), Variable::Int(i), "int")).collect()
         }
         "idx" => [0i64, 1, -1, 2, -2, 3, -3, -4].into_iter().map(|i| (int_lit(i), Variable::Int(i), "int")).collect(),
+        "float" => [("0.1", 0.1f64), ("0.2", 0.2), ("0.3", 0.3), ("1e16", 1e16), ("1.0", 1.0), ("(-0.0)", -0.0), ("1e308", 1e308)]
+            .into_iter()
+            .map(|(l, v)| (l.to_string(), Variable::Float(v), "float"))
+            .collect(),
+        "str" => [("\"\"", ""), ("\"a\"", "a"), ("\"é\"", "é")].into_iter().map(|(l, v)| (l.to_string(), Variable::String(v.into()), "string")).collect(),
         "step" => [-1i64, 1, -2, 2, 0].into_iter().map(|i| (int_lit(i), Variable::Int(i), "int")).collect(),
         "len" => [0i64, 2, -1].into_iter().map(|i| (int_lit(i), Variable::Int(i), "int")).collect(),
         "bool" => vec![("true".into(), Variable::Bool(true), "bool"), ("false".into(), Variable::Bool(false), "bool")],
